@@ -19,7 +19,8 @@ RULE = ("part 'fields' (exhaustive): for each of the 7 tag datatypes and 17 posi
         "+-1, malformed/duplicate tag name, predefined tag with wrong type, LN != length, path overlap count, "
         "beg > end, '$' on a non-last position, undefined reference / missing link, rGFA restrictions) and their "
         "valid neighbours. non-trivial (fields/pool) = the string is within one deletion/replacement of the "
-        "language boundary; a quarter of the enumerated strings and half of the edited values are first handled at level 0 "
+        "language boundary; part 'long': longer values from the value generators (numbers up to 12 digits, CIGARs, traces, "
+        "JSON, arrays, lists of identifiers) with 0-3 random edits; a quarter of the enumerated strings and half of the edited values are first handled at level 0 "
         "(parsed, read, written, loaded into a Gfa) in the same process - a verdict must not depend on what was parsed before; (docs) every mutated document; distinct by (slot, string, vlevel) / case hash")
 ASSUMPTIONS = [
     "not judged (counted as provisional): scalar JSON values; GFA1 names containing a comma inside lists; floats that overflow to inf; custom record types P, C, L (documented limitation)",
@@ -118,6 +119,8 @@ def model_judged(slot, s):
     if slot == "custom_record_type":
         # a line starting with '#' is a comment, not a custom record
         return s not in ("P", "C", "L") and not s.startswith("#")
+    if slot == "position_gfa2" and G.accepts(dt, s) and int(s.rstrip("$")) > 99999:
+        return False  # (beyond the end position of the carrier line: begin > end is another rule)
     if slot == "sequence_gfa2":
         return not (len(s) >= 5 and s[2] == ":" and s[4] == ":")
     if slot == "identifier_gfa2":
@@ -288,6 +291,62 @@ def enum_pool(shard, nshards):
                 i += 1
                 if i % nshards == shard:
                     yield {"slot": slot, "s": m, "vlevel": 1 + i % 3, "warm": (i // nshards) % 2 == 0}
+
+
+# ------------------------------------------------------------------ longer strings
+
+def _valid_value(r, slot):
+    """A (usually) valid, longer value for the slot, drawn from the value generators of vf/gen.py."""
+    dt = SLOTS[slot][1]
+    if slot in "ifZJHBA" and len(slot) == 1:
+        return gen.gen_tag_value(r, slot, gen.chance(r, 0.5))
+    if slot in ("alignment_gfa1",):
+        return gen.gen_cigar(r, "MIDNSHPX=", maxops=6, maxlen=300)
+    if slot == "alignment_gfa2":
+        return gen.gen_alignment_gfa2(r)
+    if slot == "alignment_list_gfa1":
+        return ",".join(gen.gen_cigar(r, "MIDP", maxops=3) for _ in range(r.randint(1, 4)))
+    if slot in ("position_gfa1", "slen"):
+        return str(r.randint(0, 10 ** r.randint(1, 12)))
+    if slot == "position_gfa2":
+        return str(r.randint(0, 10 ** r.randint(1, 4))) + gen.choice(r, ["", "$"])  # (the carrier's end position is 99999$)
+    if slot == "optional_integer":
+        return gen.choice(r, ["*", str(r.randint(-10 ** 9, 10 ** 9))])
+    if slot in ("sequence_gfa1", "sequence_gfa2"):
+        return gen.gen_sequence(r, r.randint(1, 30))
+    if slot in ("oriented_identifier_list_gfa1",):
+        return ",".join(gen.choice(r, ["A", "B", "s1", "x.y"]) + gen.choice(r, "+-") for _ in range(r.randint(1, 5)))
+    if slot in ("identifier_list_gfa2",):
+        return " ".join(gen.choice(r, ["A", "B", "s1", "x.y", "e1"]) for _ in range(r.randint(1, 5)))
+    if slot in ("oriented_identifier_list_gfa2",):
+        return " ".join(gen.choice(r, ["A", "B", "s1", "x.y", "e1"]) + gen.choice(r, "+-") for _ in range(r.randint(1, 5)))
+    return gen.choice(r, POOL.get(slot, ["a"]))
+
+
+@st.composite
+def st_long(draw):
+    r = draw(st.randoms(use_true_random=False))
+    slot = gen.choice(r, sorted(x for x in SLOTS if x != "custom_record_type"))
+    v = _valid_value(r, slot)
+    alpha = sorted(set(ALPHA[slot] + EXTRA))
+    for _ in range(gen.choice(r, [0, 1, 1, 2, 3])):
+        k = r.randrange(4)
+        p_ = r.randint(0, len(v))
+        if k == 0 and v:
+            p_ = min(p_, len(v) - 1)
+            v = v[:p_] + v[p_ + 1:]
+        elif k == 1:
+            v = v[:p_] + gen.choice(r, alpha) + v[p_:]
+        elif k == 2 and v:
+            p_ = min(p_, len(v) - 1)
+            v = v[:p_] + gen.choice(r, alpha) + v[p_ + 1:]
+        elif v:
+            q_ = r.randint(0, len(v))
+            a_, b_ = min(p_, q_), max(p_, q_)
+            v = v[:a_] + v[b_:] if gen.chance(r, 0.5) else v[:b_] + v[a_:b_] + v[b_:]
+    if "\t" in v:
+        v = v.replace("\t", " ")
+    return {"slot": slot, "s": v, "vlevel": r.randint(1, 3), "warm": gen.chance(r, 0.3)}
 
 
 # ------------------------------------------------------------------ document level
@@ -538,10 +597,15 @@ def st_doc_case(draw):
     return {"version": v, "lines": gen.doc_lines(doc), "expect": "accept", "kind": "none", "vlevel": 1, "explicit": True}
 
 
+def _parts_extra(tier):
+    return [Part("long", prop_field, strategy=st_long(), n=2500 if tier == "quick" else 20000, quick_shards=2,
+                 note="longer values from the value generators with 0-3 random edits (insert, delete, replace, cut, repeat)")]
+
+
 def parts(tier):
     q = tier == "quick"
     return [Part("fields", prop_field, enum=enum_fields(tier), exhaustive=True, quick_shards=12,
                  note="all strings up to the per-slot length bound over the per-slot alphabet"),
             Part("pool", prop_field, enum=enum_pool, exhaustive=True, quick_shards=4,
                  note="all single-character edits of the pool of valid values"),
-            Part("docs", prop_doc, strategy=st_doc_case(), n=700 if q else 3000, quick_shards=2)]
+            Part("docs", prop_doc, strategy=st_doc_case(), n=700 if q else 3000, quick_shards=2)] + _parts_extra(tier)
